@@ -202,35 +202,40 @@ func clientReload(w *World) {
 	// convergence: bounded by the wrapper's wait (20 s) / retry (30 s) / check (3 s) intervals, twice over
 	time.Sleep(110 * time.Second)
 	absorb()
-	w.Check("C19.converges-to-last-config")
-	m.mu.Lock()
-	for _, n := range names {
-		v, want := cur[n]
-		switch m.policy[n] {
-		case 1, 4:
-			want = false // the server never lets it register
-		}
-		if want != m.reg[n] {
-			viol("converge", fmt.Sprintf("registered-set-differs-want-%v", want), "proxy %s (policy %d): configured=%v, registered at the server=%v after 110 s; NewProxy at %v CloseProxy at %v; history: %v",
-				n, m.policy[n], want, m.reg[n], m.newProxy[n], m.closeProx[n], history)
-		}
-		if want && m.reg[n] {
-			// what is registered is the last configured variant
-			exp := mkProxy(n, v)
-			body := m.lastBody[n]
-			switch exp["type"] {
-			case "tcp", "udp":
-				if !strings.Contains(body, fmt.Sprintf(`"remote_port":%d`, exp["remotePort"])) {
-					viol("converge", "stale-variant-registered", "proxy %s: last registration %s does not carry the configured remote port %v", n, body, exp["remotePort"])
+	checkConverged := func(when string) {
+		w.Check("C19.converges-to-last-config")
+		m.mu.Lock()
+		for _, n := range names {
+			v, want := cur[n]
+			switch m.policy[n] {
+			case 1, 4:
+				want = false // the server never lets it register
+			}
+			if want != m.reg[n] {
+				viol("converge", fmt.Sprintf("registered-set-differs-want-%v", want), "proxy %s (policy %d): configured=%v, registered at the server=%v after 110 s (%s); NewProxy at %v CloseProxy at %v; history: %v",
+					n, m.policy[n], want, m.reg[n], when, m.newProxy[n], m.closeProx[n], history)
+			}
+			if want && m.reg[n] {
+				// what is registered is the last configured variant
+				exp := mkProxy(n, v)
+				body := m.lastBody[n]
+				switch exp["type"] {
+				case "tcp", "udp":
+					if !strings.Contains(body, fmt.Sprintf(`"remote_port":%d`, exp["remotePort"])) {
+						viol("converge", "stale-variant-registered", "proxy %s: last registration %s does not carry the configured remote port %v", n, body, exp["remotePort"])
+					}
+				}
+			}
+			if (m.policy[n] == 1 || m.policy[n] == 2) && cur[n] >= 0 {
+				if _, configured := cur[n]; configured && m.policy[n] == 1 && len(m.newProxy[n]) < 2 {
+					viol("retry", "start-error-not-retried", "proxy %s got a start error from the server and was never retried in 110 s (NewProxy at %v)", n, m.newProxy[n])
 				}
 			}
 		}
-		if (m.policy[n] == 1 || m.policy[n] == 2) && cur[n] >= 0 {
-			if _, configured := cur[n]; configured && m.policy[n] == 1 && len(m.newProxy[n]) < 2 {
-				viol("retry", "start-error-not-retried", "proxy %s got a start error from the server and was never retried in 110 s (NewProxy at %v)", n, m.newProxy[n])
-			}
-		}
+		m.mu.Unlock()
 	}
+	checkConverged("after the last reload")
+	m.mu.Lock()
 	m.mu.Unlock()
 	// a stopped proxy refuses work connections; a running one still serves
 	var stopped, running string
@@ -285,6 +290,24 @@ func clientReload(w *World) {
 			viol("status", "status-set-differs", "proxy %s: configured=%v, present in the status API=%v", n, configured, ok)
 		} else if ok && m.policy[n] == 0 && st.Phase != "running" {
 			viol("status", "status-not-running", "proxy %s is registered but its status is %q (%s)", n, st.Phase, st.Err)
+		}
+	}
+	// the control connection is lost: the next session registers the last loaded configuration, not an older one
+	if w.KnobBool("session_loss_after_reloads", 60) {
+		w.Probe("client.session_loss_after_reload")
+		history = append(history, fmt.Sprintf("t=%.1f server closes the control connection", w.Net.Now().Seconds()))
+		m.mu.Lock()
+		for n := range m.reg {
+			m.reg[n] = false // what the lost session had registered is gone with it
+		}
+		m.mu.Unlock()
+		ss.Conn.Close()
+		if ss2 := srv.WaitSession(2, 120*time.Second); ss2 == nil {
+			viol("converge", "no-relogin-after-session-loss", "frpc did not log in again within 120 s after the server closed the control connection")
+		} else {
+			ss = ss2
+			time.Sleep(110 * time.Second)
+			checkConverged("after the session was lost and re-established")
 		}
 	}
 	w.SetSample(map[string]any{"scenario": "reload", "history": history, "policy": m.policy})
